@@ -569,12 +569,14 @@ theorem substr_never_panics (nfc : String → String) (clusters : String → Lis
 
 /-- Width is measured in grapheme clusters: a field at least as wide as the width is
 left alone, a narrower one is padded to exactly the missing number of clusters —
-on the left, or on the right with the `-` flag; with zeros when the `0` flag is set. -/
+on the left, or on the right with the `-` flag; with zeros when the `0` flag is set and the
+`-` flag is not (zeros are never appended: `%-05v` of 42 is `42   `, as in Go's fmt; the code as found
+wrote `42000` — found here, repaired in /repo). -/
 theorem format_width_on_clusters (clusters : String → List String) (v : Verb) (s : String) (h : v.hasWidth = true) :
     ((clusters s).length ≥ v.width → padWidth clusters v s = s) ∧
     ((clusters s).length < v.width →
       padWidth clusters v s =
-        (let pads := String.ofList (List.replicate (v.width - (clusters s).length) (if v.zero then '0' else ' '))
+        (let pads := String.ofList (List.replicate (v.width - (clusters s).length) (if v.zero && !v.minus then '0' else ' '))
          if v.minus then s ++ pads else pads ++ s)) :=
   ⟨padWidth_wide clusters v s h, padWidth_pads clusters v s h⟩
 
